@@ -79,12 +79,12 @@ def check(run):
     unexpected = [v for k, v in found.items() if k not in EXPECTED_SITES]
     # ---- dynamic part
     projects = []
-    for i in range(60 if quick else 800):
+    for i in range(60 if quick else 2400):
         decls, parsers = g.forced_program(i) if i % 3 == 0 else g.program()
         files, _ = tsgen.split_program(decls, parsers, r)
         projects.append(files)
-    projects += diag_projects(r, 40 if quick else 500)
-    projects += mapped_projects(r, 24 if quick else 300)
+    projects += diag_projects(r, 40 if quick else 1500)
+    projects += mapped_projects(r, 24 if quick else 900)
     runs = 5 if quick else 8
     jobs, meta = [], []
     for pi, files in enumerate(projects):
